@@ -84,6 +84,20 @@ func init() {
 		fs.files[name] = f
 		return tuple{native{v: &memHandle{f: f}}, iface{}}
 	})
+	reg("os.OpenFile", func(fr *frame, args []value) value {
+		// create-or-append open, as the audit writers use it
+		fs := fr.i.fs
+		name := concStr(fr, args[0], "os.OpenFile")
+		if fr.fsFault("create") {
+			return tuple{native{v: (*memHandle)(nil)}, fr.fsErr("open", name)}
+		}
+		f, ok := fs.files[name]
+		if !ok || f.removed {
+			f = &memFile{name: name}
+			fs.files[name] = f
+		}
+		return tuple{native{v: &memHandle{f: f, pos: len(f.data)}}, iface{}}
+	})
 	reg("os.Remove", func(fr *frame, args []value) value {
 		name := concStr(fr, args[0], "os.Remove")
 		if fr.fsFault("remove") {
